@@ -108,6 +108,14 @@ def main(tier):
                 distinct.add(rr.get("hashA"))
                 if cfg["fmg_it"] >= 2 and int(rr["nr"]) >= 33:
                     worst_ratio = max(worst_ratio, gl.num(rr, "e2start") / gl.num(rr, "e2conv"))
+    # process history of the start-up: every ordered pair of representative configurations in one process vs a fresh process
+    reps = []
+    for i, cfg in enumerate(sc):
+        key = (cfg.get("expectL"), cfg["extr"], cfg["fmg_cycle"])
+        if cfg["fmg_it"] == 1 and cfg["strat"] == 1 and cfg["nr_exp"] <= 4 and key not in [k for k, _ in reps]:
+            reps.append((key, ("L%s extrapolation %s FMG cycle %s" % key, gl.line_of("h", cfg))))
+    reps = [r for _, r in reps][:12]
+    hist_cov = gl.process_history(gmg_rel, reps, rep, "startup") if len(reps) >= 2 else {}
     cov = {
         "states": len(results) + len(sc) * 6,
         "transitions": int(tot.get("columns", 0)) + len(sc) * 12,
@@ -127,6 +135,7 @@ def main(tier):
         "samples": [c01.short(sc[0]), c01.short(sc[-1])],
         "exhaustive": True,
     }
+    cov.update(hist_cov)
     return rep.finish(cov, ["the harness-side nested iteration uses the solver's own operators (direct solve, FMG interpolation, "
                             "cycle functions reached through -fno-access-control) in the documented order",
                             "accuracy statement (discretisation-level accuracy of the start vector) judged for the documented default of >= 2 start-up cycles per level on grids >= 33x64: error within a factor %g of the converged solution's in both norms" % ACC_FACTOR])
@@ -135,6 +144,8 @@ def main(tier):
 def replay(path):
     rp = json.load(open(path))["replay"]
     opalg, gmg_rel, gmg_san = _build()
+    if rp.get("kind") == "process-history":
+        return gl.replay_process_history(gmg_rel, rp, PID, path)
     if rp.get("part") == "startup":
         cfg = rp["config"]
         b = gmg_san if rp.get("build") == "san" else gmg_rel
